@@ -5,7 +5,7 @@ import time
 import z3
 from vlib import common, smt, chx, rx, chload
 
-FUNCS = ['DigitalRFRingbufferHandlerBase._add_record/_modify_record/_remove_record/_add_to_queue/_expire_oldest_from_group',
+FUNCS = ['DigitalRFRingbuffer._verify_ringbuffer_files', 'DigitalRFRingbufferHandlerBase._add_record/_modify_record/_remove_record/_add_to_queue/_expire_oldest_from_group',
          'CountExpirer._expire', 'SizeExpirer._add_to_queue/_remove_from_queue/_expire/_expire_oldest/_modify_record', 'TimeExpirer._expire',
          'DigitalRFRingbufferHandler (factory)']
 
@@ -93,13 +93,55 @@ sys.exit(1 if bad else 0)
 '''
 
 
+REPLAY_VERIFY = '''
+from vlib import build
+import os, sys, tempfile, shutil
+drf = build.load_pkg()
+from digital_rf import ringbuffer as RB
+kw = %r
+top = tempfile.mkdtemp()
+names = [('ch0', 10), ('ch0', 11), ('ch1', 11), ('ch1', 13)]
+paths = []
+for ch, t in names:
+    d = os.path.join(top, ch, '2020-01-01T00-00-00'); os.makedirs(d, exist_ok=True)
+    if not os.path.exists(os.path.join(top, ch, 'drf_properties.h5')): open(os.path.join(top, ch, 'drf_properties.h5'), 'w').close()
+    paths.append(os.path.join(d, 'rf@%%d.000.h5' %% (1577836800 + t)))
+def put(p, n): open(p, 'wb').write(b'x' * n)
+inb = [kw.get('i%%d' %% i, False) for i in range(4)]; ond = [kw.get('o%%d' %% i, False) for i in range(4)]
+s_old, s_new = kw.get('s_old', 10), kw.get('s_new', 10)
+rb = RB.DigitalRFRingbuffer.__new__(RB.DigitalRFRingbuffer)
+rb.path = top; rb.starttime = None; rb.endtime = None; rb.include_drf = True; rb.include_dmd = True
+rb.event_handler = RB.DigitalRFRingbufferHandler(size=kw.get('size'), count=kw.get('count'))
+for i in range(4):
+    if inb[i]: put(paths[i], s_old); rb.event_handler.add_files([paths[i]])
+pre_gone = [p for i, p in enumerate(paths) if inb[i] and not os.path.exists(p)]
+# the observer is down: files change, appear and vanish unnoticed; then it restarts and the ringbuffer is re-verified
+for i in range(4):
+    if ond[i]: put(paths[i], s_new)
+    elif os.path.exists(paths[i]): os.remove(paths[i])
+before = [p for p in paths if os.path.exists(p)]
+per = {}
+for p in before: per.setdefault(os.path.dirname(p), []).append(p)
+over = (kw.get('count') is not None and any(len(v) > kw['count'] for v in per.values())) or (kw.get('size') is not None and sum(os.path.getsize(p) for p in before) > kw['size'])
+rb._verify_ringbuffer_files(set(rb.event_handler.records.keys()))
+after = [p for p in paths if os.path.exists(p)]
+bad = 0
+if pre_gone: print('pre-state already over the limit: nothing to show'); shutil.rmtree(top); sys.exit(0)
+if len(after) < len(before) and not over: print('re-verification deleted', [os.path.basename(p) for p in before if p not in after], 'although the files on disk (%%d bytes in %%d files) are within the limits' %% (sum(os.path.getsize(p) for p in after) + 0, len(before))); bad = 1
+if sorted(rb.event_handler.records.keys()) != sorted(after): print('tracked', sorted(os.path.basename(p) for p in rb.event_handler.records), 'on disk', sorted(os.path.basename(p) for p in after)); bad = 1
+if kw.get('size') is not None and rb.event_handler.active_size != sum(os.path.getsize(p) for p in after): print('active_size', rb.event_handler.active_size, 'bytes on disk', sum(os.path.getsize(p) for p in after)); bad = 1
+shutil.rmtree(top)
+sys.exit(1 if bad else 0)
+'''
+
+
 def main(tier):
     rep = common.Report('C16', tier, 'model_checking', functions=FUNCS)
     st = smt.Stats()
     rep.assume('os.remove / os.rmdir / os.path replaced by a recording stub; file records (time key from the file name, size) are injected '
                'directly, i.e. os.stat answers are arbitrary', 'size limit >= one largest file per channel (as in the property)')
     rep.outside_claim('histories longer than 3 notifications (quick: all pairs for each single limit, all triples with all three limits)',
-                      'more than 2 channels x 2 files', 'observer threads, re-verification after observer restart')
+                      'more than 2 channels x 2 files', 'observer threads')
     # path filter: the handler never matches properties files or tmp. files (so they can never be tracked, hence never deleted)
     drf = chload.load()
     from digital_rf import ringbuffer as RB, list_drf as L
@@ -125,10 +167,13 @@ def main(tier):
               '_hist2_duration': 'duration limit: same', '_hist2_size': 'size limit (symbolic sizes, modify changes size): same, and tracked size == sum of tracked file sizes',
               '_hist_moved': 'count limit: two reports then a rename of a tracked file to another data-file name (moved event): nothing is deleted unless the files that really exist exceed the limit; the books follow the rename',
               '_hist_moved_size': 'size limit: same with symbolic sizes',
+              '_verify_count': 'count limit: re-verification after an observer restart (any set tracked before, any set on disk now): afterwards the books equal the files on disk, nothing is deleted unless the files on disk exceed the limit',
+              '_verify_size': 'size limit: same, with files that changed size unnoticed (tracked sizes stale): nothing is deleted on the basis of stale sizes, tracked sizes are the current ones afterwards',
               '_ring_witness': 'reachability: a deletion is reachable'}
     replays = {'_hist2_count': lambda kw: REPLAY % (kw, ['count'], []), '_hist2_duration': lambda kw: REPLAY % (kw, ['duration'], []),
                '_hist2_size': lambda kw: REPLAY % (kw, ['size'], []),
-               '_hist_moved': lambda kw: REPLAY_MOVED % (kw,), '_hist_moved_size': lambda kw: REPLAY_MOVED % (kw,)}
+               '_hist_moved': lambda kw: REPLAY_MOVED % (kw,), '_hist_moved_size': lambda kw: REPLAY_MOVED % (kw,),
+               '_verify_count': lambda kw: REPLAY_VERIFY % (kw,), '_verify_size': lambda kw: REPLAY_VERIFY % (kw,)}
     for k3 in range(3):
         for f3 in range(4):
             nm = '_hist3_all_%d_%d' % (k3, f3)
